@@ -139,7 +139,7 @@ func (s *Sim) applyBlockEnc(delIdx []int, nAdds int, mode int) string {
 // famEncodings: histories in which every block is applied in a non-canonical but accepted
 // encoding (C05); roots of every implementation are compared with the specification.
 func famEncodings(g *Gen, tier string, shard, nshards int) {
-	nHist, maxBlocks, maxAdds := 16, 12, 9
+	nHist, maxBlocks, maxAdds := 50, 12, 9
 	if tier == "thorough" {
 		nHist, maxBlocks, maxAdds = 60, 40, 30
 	}
